@@ -210,6 +210,14 @@ def _marker_test(c: Term, pol: bool, markers: Set[str]) -> Optional[str]:
     return None
 
 
+def _rand_call(t: Term, name: str) -> bool:
+    """a call of <something>.<name> / random.<name>: a draw from a random generator, whichever it is"""
+    if t[0] != "call":
+        return False
+    k = key(t[1])
+    return k == name or k.endswith("." + name)
+
+
 def _cap_loop(ctx: Ctx, f, l: Event, cap_attr: str, label: str, outer: Optional[Path] = None) -> None:
     """T7/T5 for one consultation loop: permutation source, cap guard before the call, counter."""
     el = ("sym", f"{l.target[0]}∈{l.loopid}") if l.target else None
@@ -301,9 +309,10 @@ def _cap_loop(ctx: Ctx, f, l: Event, cap_attr: str, label: str, outer: Optional[
             ctx.check(stop, f, l.node, f"{label}: consultation stops when the cap is reached", f"break iff {counter} >= session.{cap_attr}", bp.describe()[:120])
     # source: a uniformly random permutation of the population
     it = strip_ver(l.iter) if l.iter is not None else NONE
-    ok = it[0] == "call" and it[1][0] == "attr" and it[1][2] == "sample" and key(it[1][1]) == "self._prng" and len(it[2]) == 2 and it[2][1] == ("call", ("name", "len"), (it[2][0],), (), None)
+    # (which generator provides the permutation is C07's concern, not this property's)
+    ok = _rand_call(it, "sample") and len(it[2]) == 2 and it[2][1] == ("call", ("name", "len"), (it[2][0],), (), None)
     pop = key(it[2][0]) if ok else "?"
-    ctx.check(ok, f, l.node, f"{label}: agents are visited in a random permutation drawn from the runner's generator", "self._prng.sample(agents, len(agents))", short(it))
+    ctx.check(ok, f, l.node, f"{label}: agents are visited in a uniformly random permutation of the whole population", "<generator>.sample(agents, len(agents))", short(it))
     want_pop = "self.simulator.normal_frequency_agents" if cap_attr == "max_normal_orders" else "self.simulator.high_frequency_agents"
     ctx.check(pop == want_pop, f, l.node, f"{label}: population", want_pop, pop)
 
@@ -325,8 +334,8 @@ def r5(ctx: Ctx) -> None:
     f = ctx.func(HO)
     n = 0
     for p in normal_paths(ctx.paths(HO)):
-        outer = [l for l in loops(p) if l.iter is not None and strip_ver(l.iter)[0] == "call" and strip_ver(l.iter)[1][0] == "attr" and strip_ver(l.iter)[1][2] == "sample"]
-        ctx.check(len(outer) == 1 and key(strip_ver(outer[0].iter)[2][0]) == "local_orders", f, f.node, "normal batches are processed in a random order drawn from the runner's generator", "self._prng.sample(local_orders, len(local_orders))", ", ".join(short(l.iter) for l in outer))
+        outer = [l for l in loops(p) if l.iter is not None and _rand_call(strip_ver(l.iter), "sample")]
+        ctx.check(len(outer) == 1 and key(strip_ver(outer[0].iter)[2][0]) == "local_orders", f, f.node, "normal batches are processed in a random order", "<generator>.sample(local_orders, len(local_orders))", ", ".join(short(l.iter) for l in outer))
         for ol in outer:
             for bp in ol.paths:
                 if bp.exit[0] == "raise":
@@ -336,14 +345,13 @@ def r5(ctx: Ctx) -> None:
                 gate = None
                 for c, pol, _ in bp.conds:
                     c = strip_ver(c)
-                    if c[0] == "cmp" and c[1] in ("<", "<=") and any(s[0] == "call" and s[1][0] == "attr" and s[1][2] == "random" for s in (c[2], c[3])):
+                    if c[0] == "cmp" and c[1] in ("<", "<=") and any(_rand_call(s, "random") for s in (c[2], c[3])):
                         gate = (c, pol)
                 if gate is None:
                     ctx.violated(f, ol.node, "high-frequency phase is gated by a draw against the submission rate", "rate < U -> skip", "no such decision on the path")
                     continue
                 c, pol = gate
                 u = c[3] if c[3][0] == "call" else c[2]
-                ok_u = key(u[1][1]) == "self._prng"
                 # skip <=> rate < U  (strict);  consult <=> U <= rate
                 skip_form = c[1] == "<" and key(c[2]) == "session.high_frequency_submission_rate" and c[3] is u
                 cons_form = c[1] == "<=" and c[2] is u and key(c[3]) == "session.high_frequency_submission_rate"
@@ -355,7 +363,7 @@ def r5(ctx: Ctx) -> None:
                     ctx.violated(f, ol.node, "rate gate normal form", "skip <=> session.high_frequency_submission_rate < U", key(c))
                     continue
                 n += 1
-                ctx.check(ok_u, f, ol.node, "the rate draw comes from the runner's generator", "self._prng.random()", short(u))
+                ctx.check(not u[2] and not u[3], f, ol.node, "the rate draw is a uniform draw on [0, 1)", "<generator>.random()", short(u))
                 ctx.check(bool(inner) == consult and (consult or bp.exit[0] in ("continue", "fall")), f, ol.node, "high-frequency agents are consulted exactly when U <= rate", "consult iff not (rate < U)", f"consult={consult} loops={len(inner)}")
                 # the batch's own orders are handled before the high-frequency phase
                 if inner and batch:
